@@ -162,12 +162,23 @@ func specC13(l *Loaded, tier string, seed int64) (*Spec, error) {
 	for _, cp := range []int{1, 2, 3} {
 		for op0 := 0; op0 < 3; op0++ {
 			jobs = append(jobs, &Job{Pkg: "common/cache", Fn: "VerifC13Generic", Key: fmt.Sprintf("generic|cap%d|k%d|op0=%d", cp, kG, op0), Choices: []int{op0},
-				Params: map[string]string{"cap": si(cp), "k": si(kG), "keys": "3"}, MaxPaths: 3_000_000})
+				Params: map[string]string{"cap": si(cp), "k": si(kG), "keys": "3", "pre": "0"}, MaxPaths: 3_000_000})
+		}
+	}
+	// after a warm-up that already displaced keys (pre = cap+1 or cap+2 concrete puts of distinct keys): repeated displacement
+	warm := [][4]int{{3, 5, 4, 2}, {3, 5, 5, 2}, {4, 6, 5, 2}} // capacity, keys, pre, k
+	if tier == "thorough" {
+		warm = [][4]int{{3, 5, 4, 3}, {3, 5, 5, 3}, {4, 6, 5, 3}, {4, 6, 6, 3}, {2, 4, 3, 3}}
+	}
+	for _, w := range warm {
+		for op0 := 0; op0 < 3; op0++ {
+			jobs = append(jobs, &Job{Pkg: "common/cache", Fn: "VerifC13Generic", Key: fmt.Sprintf("generic-warm|cap%d|keys%d|pre%d|k%d|op0=%d", w[0], w[1], w[2], w[3], op0), Choices: []int{op0},
+				Params: map[string]string{"cap": si(w[0]), "k": si(w[3]), "keys": si(w[1]), "pre": si(w[2])}, MaxPaths: 3_000_000})
 		}
 	}
 	return &Spec{Jobs: jobs,
 		Rule:        "bounded-exhaustive operation histories from the empty cache (small geometries, symbolic probe addresses and data) plus single/double operations from an arbitrary valid state (also at the 64B/1KB and 128B/4KB geometries), each compared with an MRU-first list kept by the harness; the generic LRU against a recency list",
-		Bounds:      map[string]interface{}{"history_length": kH, "step_ops_small": kStepSmall, "step_ops_real_geometry": kReal, "geometries": "2x2,4x2,2x3,4x3 bytes x lines (history); 4x2,4x3,64x16,128x32 (step)", "generic": map[string]int{"capacity_max": 3, "keys": 3, "k": kG}},
+		Bounds:      map[string]interface{}{"history_length": kH, "step_ops_small": kStepSmall, "step_ops_real_geometry": kReal, "geometries": "2x2,4x2,2x3,4x3 bytes x lines (history); 4x2,4x3,64x16,128x32 (step)", "generic": map[string]int{"capacity_max": 3, "keys": 3, "k": kG}, "generic_after_warmup": "capacity 3-4 (thorough also 2), 5-6 keys, cap+1 / cap+2 concrete distinct puts, then 2 (3) symbolic operations"},
 		Assumptions: []string{"the caller never inserts a line that overlaps a resident line (overlap is a machine-level matter, C05)", "Write only touches bytes of one resident line (it panics otherwise by contract)", "at the real geometries the arbitrary state has distinct aligned bases in a fixed scrambled recency order and probe addresses are line corners"},
 		Outside:     []string{"histories longer than k from the empty cache", "unaligned or overlapping line bases", "String()"},
 	}, nil
@@ -212,6 +223,18 @@ func specC14(l *Loaded, tier string, seed int64) (*Spec, error) {
 			}
 		}
 	}
+	if tier != "thorough" {
+		// quick: output capacity 4 (four visible items: removal from the middle of a longer queue) with a nearly full and a full output side
+		for bl := 1; bl <= 2; bl++ {
+			for nq := 3; nq <= 4; nq++ {
+				for nb := 0; nb <= bl; nb++ {
+					jobs = append(jobs, &Job{Pkg: "proc/comp", Fn: "VerifC14BufferedStep", Key: fmt.Sprintf("buffered-step|q%d.b%d|nq%d.nb%d|k%d", 4, bl, nq, nb, kStep),
+						Params: map[string]string{"qlen": "4", "blen": strconv.Itoa(bl), "k": strconv.Itoa(kStep), "nq": strconv.Itoa(nq), "nb": strconv.Itoa(nb)}, MaxPaths: 2_000_000,
+						Note: "k operations from an arbitrary bus state with output capacity 4"})
+				}
+			}
+		}
+	}
 	jobs = append(jobs, &Job{Pkg: "proc/comp", Fn: "VerifC14Simple", Key: fmt.Sprintf("simple|k%d", kS), Params: map[string]string{"k": strconv.Itoa(kS)}, Covers: []string{"end"}, MaxPaths: 2_000_000})
 	for ln := 1; ln <= 3; ln++ {
 		jobs = append(jobs, &Job{Pkg: "proc/comp", Fn: "VerifC14Queue", Key: fmt.Sprintf("queue|len%d|k%d", ln, kQ), Params: map[string]string{"k": strconv.Itoa(kQ), "len": strconv.Itoa(ln)}, Covers: []string{"end"}, MaxPaths: 2_000_000})
@@ -221,7 +244,7 @@ func specC14(l *Loaded, tier string, seed int64) (*Spec, error) {
 	}
 	return &Spec{Jobs: jobs,
 		Rule:   "bounded-exhaustive operation histories (the executor forks on every vp.Choice) over the real BufferedBus/SimpleBus/Queue/Broadcast with symbolic payloads and symbolic Pick/Exists predicates; each delivered item is compared by the solver with the harness's list of undelivered items",
-		Bounds: map[string]interface{}{"arbitrary_state_then_k_ops": kStep, "history_length": map[string]int{"buffered": kB, "simple": kS, "queue": kQ, "broadcast": kBr}, "capacities(out,in)": caps, "payloads": "all int32 values"},
+		Bounds: map[string]interface{}{"arbitrary_state_then_k_ops": kStep, "arbitrary_state_capacities": "quick: out,in <= 3 plus out=4,in<=2 with 3-4 visible items; thorough: out,in <= 4", "history_length": map[string]int{"buffered": kB, "simple": kS, "queue": kQ, "broadcast": kBr}, "capacities(out,in)": caps, "payloads": "all int32 values"},
 		Assumptions: []string{"producer contract: Add (and Revert) only while CanAdd() reports room", "cycles are non-decreasing", "a reverted item is the next one delivered after the items that are already visible on the output side (Revert/DeleteLast have no caller in the repository; weakest reading of the sentence)",
 			"visibility is read through PendingRead(): the visible items are a prefix of the delivery order"},
 		Outside: []string{"histories longer than k", "capacities above 4", "payload types other than int32 (the code is generic and never inspects the payload)"},
